@@ -18,6 +18,14 @@ Theorem C10_lock_coupling :
 Proof. exact lock_coupling. Qed.
 Print Assumptions C10_lock_coupling.
 
+(** a call that has returned (normally, with its own error, or with the error of
+    a failing VisitFunc: [CQuery q (Some k)]) holds no lock *)
+Theorem C10_returned_holds_nothing :
+  forall ops s i t,
+    reach ops s -> nth_error (thr s) i = Some t -> is_done (tpc t) = true -> held t = [].
+Proof. exact returned_holds_nothing. Qed.
+Print Assumptions C10_returned_holds_nothing.
+
 (** locks are acquired in strictly increasing node id (= strictly increasing depth) *)
 Theorem C10_lock_order :
   forall ops s i t n,
